@@ -40,7 +40,7 @@ def plain_dataset(rng, base):
             for z in range(0, size[2], cs[2]):
                 c = (x, min(x + cs[0], size[0]), y, min(y + cs[1], size[1]), z, min(z + cs[2], size[2]))
                 if rng.random() < 0.85:
-                    b = bytes(rng.randrange(256) for _ in range(rng.randrange(1, 30)))
+                    b = bytes(rng.randrange(256) for _ in range(rng.choice([0, 0, 1, 2] + [rng.randrange(1, 30)] * 6)))
                     acc.store_chunk(b, "k", c)
                     chunks[c] = b
     return cfg, info, chunks
